@@ -500,3 +500,202 @@ Theorem C03_reach_model_example :
 Proof. exact reach_model_example. Qed.
 Print Assumptions C03_reach_model_example.
 
+
+Require Import LV.Base LV.VV LV.VVFacts LV.Path LV.PathSpec LV.PathTerm LV.PathDistinct LV.PathApi LV.Prog LV.Objects LV.Exec LV.Atomic LV.Ops LV.Check LV.AtomicFacts LV.AtomicCoherence LV.AtomicCoRR LV.AtomicClosure LV.AtomicBridge.
+
+(* TOWARDS THE EXECUTION MODEL (AtomicBridge.v): the machine generalised by an arbitrary clock-growth step -- a thread joins ANY view v whose components are bounded by their owners' own stamps (exactly what ClockFacts.run_clock_wf gives for every view stored anywhere in an execution state: mutex, channel, notify, release sequences ...), instead of only another thread's current clock -- and the calls of Ops.v shown to be machine steps. Still missing for a full bridge (DESIGN section 11): the tracking-clock fields of the invariant, t_rel <> vv_new, replayed indices, spawn *)
+(* the invariant survives a join with any admissible view *)
+Theorem C03_grow_goodS :
+  forall (st : mstate) (t : nat) (v : vv),
+       GoodS st -> t < length (snd st) -> admissible (snd st) t v -> GoodS (grow st t v).
+Proof. exact grow_goodS. Qed.
+Print Assumptions C03_grow_goodS.
+
+(* the synchronisation view of any live store is admissible (acquire fences) *)
+Theorem C03_sync_view_admissible :
+  forall (own rk : nat -> nat) (s : atomic_state) (cs : list vv) (t i : nat),
+       GoodO own rk s cs -> i < at_cnt s -> admissible cs t (st_sync (get_store s i)).
+Proof. exact sync_view_admissible. Qed.
+Print Assumptions C03_sync_view_admissible.
+
+(* the invariant holds along every run of the generalised machine (model steps + arbitrary admissible growth) *)
+Theorem C03_brun_goodS :
+  forall (evs : list (nat * bop)) (st st' : mstate),
+       GoodS st -> brun st evs = Some st' -> GoodS st'.
+Proof. exact brun_goodS. Qed.
+Print Assumptions C03_brun_goodS.
+
+(* no modification-order edge is ever lost along such a run *)
+Theorem C03_brun_stable :
+  forall (evs : list (nat * bop)) (st st' : mstate) (x y : nat),
+       GoodS st ->
+       brun st evs = Some st' ->
+       lives st x ->
+       lives st y -> mo_lt st x y = true -> lives st' x /\ lives st' y /\ mo_lt st' x y = true.
+Proof. exact brun_stable. Qed.
+Print Assumptions C03_brun_stable.
+
+(* RMW atomicity in every state of every such run *)
+Theorem C03_brun_atomicity :
+  forall (evs : list (nat * bop)) (st st' : mstate) (r sl sid : nat),
+       GoodS st ->
+       brun st evs = Some st' ->
+       r < at_cnt (fst st') ->
+       st_rmw_src (get_store (fst st') r) = Some (sl, sid) ->
+       sl < at_cnt (fst st') /\
+       vv_lt (mo (fst st') sl) (mo (fst st') r) = true /\
+       (forall x : nat,
+        x < at_cnt (fst st') ->
+        vv_lt (mo (fst st') sl) (mo (fst st') x) && vv_lt (mo (fst st') x) (mo (fst st') r) = false).
+Proof. exact brun_atomicity. Qed.
+Print Assumptions C03_brun_atomicity.
+
+(* loom's assert_ne never fires *)
+Theorem C03_brun_never_none :
+  forall (evs : list (nat * bop)) (st st' : mstate),
+       GoodS st ->
+       brun st evs = Some st' ->
+       (forall (t : nat) (c : vv) (ly : option nat) (o : ord),
+        match_load_to_stores (fst st') t c ly o <> None) /\ match_rmw_to_stores (fst st') <> None.
+Proof. exact brun_never_none. Qed.
+Print Assumptions C03_brun_never_none.
+
+(* CoRR / CoWR in happens-before form for the generalised machine *)
+Theorem C03_CoRR_CoWR_b :
+  forall (st1 : mstate) (evs : list (nat * bop)) (st2 : mstate) (t i j : nat) (o : ord),
+       GoodS st1 ->
+       lives st1 i ->
+       lives st1 j ->
+       knows st1 t j ->
+       mo_lt st1 i j = true -> brun st1 evs = Some st2 -> mstep RModel st2 t (XLoad i o) = None.
+Proof. exact CoRR_CoWR_b. Qed.
+Print Assumptions C03_CoRR_CoWR_b.
+
+(* likewise for RMWs *)
+Theorem C03_CoRR_CoWR_rmw_b :
+  forall (st1 : mstate) (evs : list (nat * bop)) (st2 : mstate) (t i j : nat)
+         (f : N -> option N) (so fo : ord),
+       GoodS st1 ->
+       lives st1 i ->
+       lives st1 j ->
+       mo_lt st1 i j = true ->
+       brun st1 evs = Some st2 -> mstep RModel st2 t (XRmw i f so fo) = None.
+Proof. exact CoRR_CoWR_rmw_b. Qed.
+Print Assumptions C03_CoRR_CoWR_rmw_b.
+
+(* read-read coherence *)
+Theorem C03_CoRR_same_thread_b :
+  forall (st0 : mstate) (t j : nat) (o : ord) (st1 : mstate) (evs : list (nat * bop))
+         (st2 : mstate) (i : nat) (o' : ord),
+       GoodS st0 ->
+       mstep RModel st0 t (XLoad j o) = Some st1 ->
+       lives st1 i ->
+       mo_lt st1 i j = true -> brun st1 evs = Some st2 -> mstep RModel st2 t (XLoad i o') = None.
+Proof. exact CoRR_same_thread_b. Qed.
+Print Assumptions C03_CoRR_same_thread_b.
+
+(* write-read coherence *)
+Theorem C03_CoWR_same_thread_b :
+  forall (st0 : mstate) (t : nat) (v : N) (o : ord) (st1 : mstate) 
+         (evs : list (nat * bop)) (st2 : mstate) (i : nat) (o' : ord),
+       GoodS st0 ->
+       mstep RModel st0 t (XStore v o) = Some st1 ->
+       lives st1 i ->
+       mo_lt st1 i (at_cnt (fst st0)) = true ->
+       brun st1 evs = Some st2 -> mstep RModel st2 t (XLoad i o') = None.
+Proof. exact CoWR_same_thread_b. Qed.
+Print Assumptions C03_CoWR_same_thread_b.
+
+(* read-write coherence *)
+Theorem C03_CoRW_same_thread_b :
+  forall (st0 : mstate) (t j : nat) (o : ord) (st1 : mstate) (evs : list (nat * bop))
+         (st2 : mstate) (v : N) (o' : ord) (st3 : mstate),
+       GoodS st0 ->
+       mstep RModel st0 t (XLoad j o) = Some st1 ->
+       brun st1 evs = Some st2 ->
+       mstep RModel st2 t (XStore v o') = Some st3 -> mo_lt st3 j (at_cnt (fst st2)) = true.
+Proof. exact CoRW_same_thread_b. Qed.
+Print Assumptions C03_CoRW_same_thread_b.
+
+(* write-write coherence *)
+Theorem C03_CoWW_same_thread_b :
+  forall (st0 : mstate) (t : nat) (v : N) (o : ord) (st1 : mstate) 
+         (evs : list (nat * bop)) (st2 : mstate) (v' : N) (o' : ord) (st3 : mstate),
+       GoodS st0 ->
+       mstep RModel st0 t (XStore v o) = Some st1 ->
+       brun st1 evs = Some st2 ->
+       mstep RModel st2 t (XStore v' o') = Some st3 ->
+       mo_lt st3 (at_cnt (fst st0)) (at_cnt (fst st2)) = true.
+Proof. exact CoWW_same_thread_b. Qed.
+Print Assumptions C03_CoWW_same_thread_b.
+
+(* the cell may be created by any thread at any point of a system with arbitrary bounded clocks that dominate the creation clock *)
+Theorem C03_atomic_new_goodS :
+  forall (me : nat) (c0 : vv) (v0 : N) (cs : list vv),
+       me < length cs ->
+       length cs <= MAX_THREADS ->
+       clk cs me = c0 ->
+       1 <= vv_get c0 me ->
+       (forall t : nat, t < length cs -> t < length (clk cs t)) ->
+       (forall u t : nat,
+        u < length cs -> t < length cs -> vv_get (clk cs u) t <= vv_get (clk cs t) t) ->
+       (forall t : nat, t < length cs -> vle c0 (clk cs t)) -> GoodS (s_new me c0 v0, cs).
+Proof. exact atomic_new_goodS. Qed.
+Print Assumptions C03_atomic_new_goodS.
+
+(* Ops.v's load call (candidates computed with any last_yield) is a machine load step *)
+Theorem C03_load_call_is_step :
+  forall (s : atomic_state) (cs : list vv) (t : nat) (ly : option nat) 
+         (o : ord) (l : list nat) (idx : nat) (s' : atomic_state) (c' : vv) 
+         (val : N),
+       GoodS (s, cs) ->
+       t < length cs ->
+       match_load_to_stores s t (vv_inc (clk cs t) t) ly o = Some l ->
+       In idx l ->
+       atomic_load s t (vv_inc (clk cs t) t) idx o = inl (s', c', val) ->
+       mstep RModel (s, cs) t (XLoad idx o) = Some (s', list_set cs t c').
+Proof. exact load_call_is_step. Qed.
+Print Assumptions C03_load_call_is_step.
+
+(* the store call is a machine store step *)
+Theorem C03_store_call_is_step :
+  forall (s : atomic_state) (cs : list vv) (t : nat) (v : N) (o : ord) (s1 : atomic_state),
+       t < length cs ->
+       at_cnt s < MAX_ATOMIC_HISTORY ->
+       track_store s (vv_inc (clk cs t) t) = inl s1 ->
+       mstep RModel (s, cs) t (XStore v o) =
+       Some
+         (atomic_store s1 t (vv_inc (clk cs t) t) vv_new vv_new v o,
+          list_set cs t (vv_inc (clk cs t) t)).
+Proof. exact store_call_is_step. Qed.
+Print Assumptions C03_store_call_is_step.
+
+(* the RMW call is a machine RMW step *)
+Theorem C03_rmw_call_is_step :
+  forall (s : atomic_state) (cs : list vv) (t : nat) (so fo : ord) 
+         (f : N -> option N) (l : list nat) (idx : nat) (s' : atomic_state) 
+         (c' : vv) (prev : N) (ok : bool),
+       t < length cs ->
+       at_cnt s < MAX_ATOMIC_HISTORY ->
+       match_rmw_to_stores s = Some l ->
+       In idx l ->
+       atomic_rmw s t (vv_inc (clk cs t) t) vv_new idx so fo f = inl (s', c', prev, ok) ->
+       mstep RModel (s, cs) t (XRmw idx f so fo) = Some (s', list_set cs t c').
+Proof. exact rmw_call_is_step. Qed.
+Print Assumptions C03_rmw_call_is_step.
+
+(* one micro-operation end to end: exec_micro on MStorePost is the machine's store step on (atomic a, the threads' clocks) (for t_rel = vv_new, ring not full) *)
+Theorem C03_MStorePost_is_step :
+  forall (e : exec) (me a : nat) (v : N) (o : ord) (e' : exec) (t0 : thread)
+         (s : atomic_state),
+       get_thread e me = Some t0 ->
+       t_rel t0 = vv_new ->
+       get_atomic e a = Some s ->
+       at_cnt s < MAX_ATOMIC_HISTORY ->
+       exec_micro e me (MStorePost a v o) = MOk e' ->
+       exists s' : atomic_state,
+         get_atomic e' a = Some s' /\
+         mstep RModel (s, clocks e) me (XStore v o) = Some (s', clocks e').
+Proof. exact MStorePost_is_step. Qed.
+Print Assumptions C03_MStorePost_is_step.
+
